@@ -288,8 +288,11 @@ func storErrMandatory(rn string, thorough bool) []string {
 }
 
 // sweepTemplates: the operation templates of the sweep, drawn uniformly (the fuzz batch weighs the token endpoint 40 %).
-func (x *world) sweepDraft() *draft {
-	switch n := x.r.IntN(17); {
+func (x *world) sweepDraft() *draft { return x.sweepDraftN(x.r.IntN(17)) }
+
+// sweepDraftN: the template of slot n (0-5 the six grants, 6-7 revoke, 8 authorize, ... 15 ready, 16 anything).
+func (x *world) sweepDraftN(n int) *draft {
+	switch {
 	case n < 6:
 		return x.tmplToken(grantTypes[n])
 	case n < 8:
